@@ -63,7 +63,15 @@ DumpNode(s, actset) ==
     PrintT(<<"NODE", ToJson([pre |-> Obs(s),
         edges |-> [i \in 1..Len(acts) |->
             LET r == Apply(s, acts[i]) IN
-            [act |-> acts[i],
-             exp |-> [ok |-> r.ok, why |-> r.why, fails |-> r.fails, free |-> r.free, ret |-> r.ret, ev |-> r.ev],
-             post |-> IF r.post = s THEN "same" ELSE Obs(r.post)]]])>>)
+            IF r.dev = "none"
+            THEN [act |-> acts[i],
+                  exp |-> [ok |-> r.ok, why |-> r.why, fails |-> r.fails, free |-> r.free, ret |-> r.ret, ev |-> r.ev],
+                  post |-> IF r.post = s THEN "same" ELSE Obs(r.post)]
+            ELSE \* a recorded deviation: what the code does, labelled, plus what the design says (alt)
+                 LET ri == ApplyIntended(s, acts[i]) IN
+                 [act |-> acts[i],
+                  exp |-> [ok |-> r.ok, why |-> r.why, fails |-> r.fails, free |-> r.free, ret |-> r.ret, ev |-> r.ev, dev |-> r.dev],
+                  post |-> IF r.post = s THEN "same" ELSE Obs(r.post),
+                  alt |-> [exp |-> [ok |-> ri.ok, why |-> ri.why, fails |-> ri.fails, free |-> ri.free, ret |-> ri.ret, ev |-> ri.ev],
+                           post |-> Obs(ri.post)]]]])>>)
 =============================================================================
